@@ -148,6 +148,22 @@ def check_C01(A: Analysis, tier):
                 if not ok:
                     rb.fail(f, n, f"Stream `{v}` is not used exclusively inside `with closing({v})`: the file it opened (or the "
                             "caller's offset) is not restored on every path", A.p.loc(f, n))
+
+    # (v) the file Stream opens (and tests) for a path argument is the argument itself
+    for e in ("store_object", "store_metadata"):
+        it = A.api(e, "th")
+        given = set()
+        for c in it.calls:
+            if c["callee"] == "Stream.__init__" and "argmap" in c:
+                given |= c["argmap"].get("obj", EMPTY)
+        for ev in it.events:
+            if ev.func.qual == "Stream.__init__" and ev.prim in ("open", "io.open", "os.path.isfile"):
+                rb.ob()
+                rb.inst(f"{e}: Stream.__init__:{ev.line} {ev.prim}({showv(ev.paths[0])[:40]})")
+                odd = [t for t in ev.paths[0] if t not in given]
+                if odd:
+                    rb.fail(ev.func, ev.node, f"Stream {ev.prim}s `{show(odd[0])}`, a string derived from the path it was given, not the path itself: "
+                            "a lexically normalised path can name a different file (`dir-symlink/../x`)", A.p.loc(ev.func, ev.node))
     rules.append(rb)
 
     rd1 = Rule("C01", "C01.d", "Stream.__iter__ rewinds the wrapped object to offset 0, yields every chunk it reads until an empty "
@@ -422,8 +438,9 @@ def check_C02(A: Analysis, tier):
     rb = Rule("C02", "C02.b", "caller-supplied algorithm names reach hashlib and the digest map only after "
               "_clean_algorithm", floor=3)
     algparams = {P("additional_algorithm"), P("checksum_algorithm"), P("algorithm")}
-    for e in ("store_object", "delete_if_invalid_object", "get_hex_digest"):
-        it = A.api(e, "th")
+    for e in ("store_object", "delete_if_invalid_object", "get_hex_digest", "_computehash"):
+        # _computehash is summarised where it is called (an intrinsic), so its own body is interpreted once as an entry
+        it = A.api(e, "th") if e != "_computehash" else A.run(Q(e), "th")
         for ev in it.events:
             if ev.kind == "HASHNEW":
                 rb.ob()
@@ -432,6 +449,8 @@ def check_C02(A: Analysis, tier):
                     if t in algparams or (tag(t) == "elem" and any(x in algparams for x in subterms(t) if False)):
                         rb.fail(site_func(ev), site_text(ev), f"hashlib.new receives the caller's spelling `{show(t)}` without _clean_algorithm",
                                 site_loc(A, ev))
+        if e == "_computehash":
+            continue
         # digest-map look-ups / membership with a raw name
         seen = set()
         for ev in it.events:
@@ -604,16 +623,38 @@ def check_C06(A: Analysis, tier):
 
     rb = Rule("C06", "C06.b", "the verdict is taken before the temp file is published and before tagging; both "
               "branches (new / already stored content) call the same verifier with the same arguments", floor=4)
-    mg = A.p.func(Q("_move_and_get_checksums"))
-    vcalls = [c for c in ast.walk(mg.node) if isinstance(c, ast.Call) and norm(c.func) == "self._verify_object_information"]
-    rb.inst(f"_move_and_get_checksums: {len(vcalls)} verifier call(s)")
-    rb.ob()
-    if len(vcalls) < 2:
-        rb.fail(mg, "self._verify_object_information(...)", "content that is already stored (or new content) is accepted without a verdict: "
-                f"only {len(vcalls)} of the two branches validate", A.p.loc(mg, mg.node))
-    elif len({norm(c) for c in vcalls}) != 1:
-        rb.fail(mg, vcalls[1], "the two branches pass different arguments to the verifier: the verdict depends on whether identical "
-                "content is already stored", A.p.loc(mg, vcalls[1]))
+    VQ = Q("_verify_object_information")
+    for m in ALL_MODES:
+        it = A.api("store_object", m)
+        groups = {}
+        for c in it.calls:
+            if c["callee"] == VQ:
+                groups.setdefault(c["ctx"][:2], []).append(c)
+        for pre, cs in sorted(groups.items()):
+            rb.ob()
+            rb.inst(f"store_object [{m}] via {pre[-1].split('.')[-1]}: {len(cs)} verifier call(s)")
+            ref = {k: v for k, v in cs[0]["argmap"].items() if k != "self"}
+            # what the verdict is about: the measured size of the temp file just written and the digests computed while writing it
+            sz = ref.get("tmp_file_size", EMPTY)
+            rb.ob()
+            if not sz or not all(tag(t) == "probe" and t[1] == "getsize" and all(classify(x).cls == "TMP" for x in t[2]) for t in sz):
+                rb.fail(cs[0]["func"], cs[0]["node"], f"the size the verdict compares is {showv(sz)[:80]}, not the measured size of the temp file that was written "
+                        "(os.path.getsize of it): for a stream whose backing file differs from the bytes it delivers, a valid object is rejected and a wrong size accepted",
+                        A.p.loc(cs[0]["func"], cs[0]["node"]))
+            for c in cs[1:]:
+                cur = {k: v for k, v in c["argmap"].items() if k != "self"}
+                if cur != ref:
+                    diff = sorted(k for k in set(ref) | set(cur) if ref.get(k) != cur.get(k))
+                    rb.fail(c["func"], c["node"], f"the branches pass different arguments ({', '.join(diff)}) to the verifier: the verdict depends on "
+                            "whether identical content is already stored", A.p.loc(c["func"], c["node"]))
+        for c in it.calls:
+            # every normal completion of the store step has passed the verifier (new and already-stored content alike)
+            if c["callee"] in (Q("_store_and_validate_data"), Q("_store_data_only")) and c.get("after") is not None:
+                rb.ob()
+                rb.inst(f"store_object [{m}]: {c['callee'].split('.')[-1]} completes only after a verdict")
+                if ("call", VQ) not in c["after"].done:
+                    rb.fail(c["func"], c["node"], "content that is already stored (or new content) is accepted without a verdict: a path through "
+                            f"{c['callee'].split('.')[-1]} completes without _verify_object_information", A.p.loc(c["func"], c["node"]))
     for m in ALL_MODES:
         it = A.api("store_object", m)
         for ev in it.events:
@@ -646,14 +687,22 @@ def check_C06(A: Analysis, tier):
                     if not ok:
                         rc.fail(vf, n, "the mismatch error is raised for a pid without first deleting the temp file", A.p.loc(vf, n))
                     break
-    tries = [t for t in func_nodes(mg, ast.Try) if any(c in vcalls for s in t.body for c in ast.walk(s))]
-    rc.ob()
-    okf = any(t.finalbody and any(isinstance(c, ast.Call) and norm(c.func) == "self._delete" and norm(c.args[-1]) == "tmp_file_name"
-                                  for s in t.finalbody for c in ast.walk(s)) for t in tries)
-    rc.inst("_move_and_get_checksums: finally removes the temp file on the duplicate branch")
-    if not okf:
-        rc.fail(mg, "finally: self._delete('tmp', tmp_file_name)", "on the already-stored branch the redundant temp file is not removed on every path",
-                A.p.loc(mg, mg.node))
+    # scenario "identical content is already stored": the redundant temp file is gone at every exit
+    def already_stored(atom):
+        if atom[0] == "probe" and atom[1] in ("isfile", "exists") and any(classify(t).cls == "OBJ" for t in atom[2]):
+            return True
+        return None
+
+    for m in ALL_MODES:
+        it_s = A.run(Q("store_object"), m, tagk="already-stored", assume=already_stored)
+        for k_, l_, st_, rv_ in it_s.exits:
+            rc.ob()
+            left = [t for t in st_.tmps if any("objects" in repr(x) for x in subterms(t))]
+            if ("call", Q("_write_to_tmp_file_and_get_hex_digests")) in st_.done:
+                rc.inst(f"store_object [{m}] already-stored scenario: exit {k_} {l_ or ''}")
+            if left:
+                rc.fail(Q("store_object"), f"exit {k_} {l_ or ''} with the temp object file left", "on the already-stored branch the redundant temp file "
+                        f"is not removed on every path (exit: {k_} {l_ or ''})", A.p.loc(A.p.func(Q("store_object")), A.p.func(Q("store_object")).node))
     rules.append(rc)
 
     rd = Rule("C06", "C06.d", "delete_if_invalid_object deletes (reference-guarded) exactly on the two invalid verdicts, "
@@ -1141,7 +1190,7 @@ def check_C17(A: Analysis, tier):
     rules = []
     ra = Rule("C17", "C17.a", "at every state-changing primitive of a public call, every parameter the call validates "
               "has already passed its checker on this path (validate before mutate)", floor=8)
-    rb = Rule("C17", "C17.b", "every parameter of every public method is handed to a checker by the method itself", floor=20)
+    rb = Rule("C17", "C17.b", "every parameter of every public method is handed to a checker during the call (by the method or a helper it calls)", floor=20)
     for m in ALL_MODES:
         for e in PUBLIC_API:
             it = A.api(e, m)
@@ -1149,7 +1198,7 @@ def check_C17(A: Analysis, tier):
             params = [a.arg for a in f.node.args.args if a.arg != "self"]
             checked = {}
             for c in it.calls:
-                if c["callee"] in CHECKERS and c["ctx"] == (Q(e),):
+                if c["callee"] in CHECKERS and c["ctx"] and c["ctx"][0] == Q(e):
                     for pn, v in c.get("argmap", {}).items():
                         for t in v:
                             if tag(t) == "param":
